@@ -770,12 +770,16 @@ pub fn exec(case: &PCase, sample_closed: bool) -> Trace {
       }
       Step::Unsub => {
         if let Some(s) = sub.take() {
+          tr.live_at_unsub = vtime::live_tasks();
+          tr.timers_at_unsub = vtime::pending_timers();
           s.unsubscribe();
           tr.unsub_at = Some(k);
         }
       }
       Step::DropGuard => {
         if let Some(g) = guard.take() {
+          tr.live_at_unsub = vtime::live_tasks();
+          tr.timers_at_unsub = vtime::pending_timers();
           drop(g);
           tr.unsub_at = Some(k);
         }
